@@ -509,6 +509,11 @@ func (k *K9) deferredCleans(fn *ssa.Function, ret *ssa.Return, isFail bool) kset
 				for kd := range k.cleansAlways(clo) {
 					out[kd] = true
 				}
+				// a named clean-up that receives the address of the operation's error result:
+				// `defer t.cleanOnFailure(&err)` with `if *errp != nil { clean }` inside
+				if isFail {
+					out.addAll(k.cleansOnErrPtr(fn, clo, d, ret))
+				}
 				continue
 			}
 			// closure: find its clean calls and the guard they sit under
@@ -550,6 +555,65 @@ func (k *K9) deferredCleans(fn *ssa.Function, ret *ssa.Return, isFail bool) kset
 						out.addAll(cleans)
 					}
 				}
+			}
+		}
+	}
+	return out
+}
+
+// cleansOnErrPtr: the deferred callee gets &R, R being the variable whose value ret returns, and cleans under
+// `*param != nil`: at a failing exit (R non-nil) those cleans apply.
+func (k *K9) cleansOnErrPtr(fn, callee *ssa.Function, d *ssa.Defer, ret *ssa.Return) kset {
+	out := kset{}
+	vs := sigOf(fn.Signature)
+	if vs.errIdx < 0 || vs.errIdx >= len(ret.Results) {
+		return out
+	}
+	u, ok := ret.Results[vs.errIdx].(*ssa.UnOp)
+	if !ok {
+		return out
+	}
+	al, ok := u.X.(*ssa.Alloc)
+	if !ok {
+		return out
+	}
+	pidx := -1
+	for i, a := range d.Call.Args {
+		if a == ssa.Value(al) {
+			pidx = i
+		}
+	}
+	if pidx < 0 || pidx >= len(callee.Params) {
+		return out
+	}
+	pname := fmt.Sprintf("*p%d", pidx)
+	for _, cb := range callee.Blocks {
+		for _, ci := range cb.Instrs {
+			call, ok := ci.(ssa.CallInstruction)
+			if !ok {
+				continue
+			}
+			cleans := kset{}
+			for _, kd := range k.Kinds {
+				if matchSpecArg(call, kd.Clean) {
+					cleans[kd.Name] = true
+				}
+			}
+			if c2 := call.Common().StaticCallee(); c2 != nil {
+				cleans.addAll(k.cleansAlways(c2))
+			}
+			if len(cleans) == 0 {
+				continue
+			}
+			applies := true
+			for _, g := range GuardsOf(cb) {
+				if (g.Canon == "(nil == "+pname+")" || g.Canon == "("+pname+" == nil)") && !g.Sense {
+					continue
+				}
+				applies = false
+			}
+			if applies {
+				out.addAll(cleans)
 			}
 		}
 	}
